@@ -10,37 +10,38 @@ import (
 
 // RevProfile holds the generator biases of one property profile.
 type RevProfile struct {
-	Name          string
-	LenW          []int // weights for chain length 1..5 (index 0 = length 1)
-	OCSPCountW    []int // weights for 0..3 responders
-	CRLCountW     []int // weights for 0..3 points
-	EntryW        []int // ValidateContext / Validate / CheckStatus
-	FetcherW      []int // real / real+cache / stub
-	ConfigW       []int // fault-free / net only / byzantine only / everything
-	PSrcFault     int   // percent of sources that deviate inside a fault-injecting run
-	HostileURL    int   // percent of sources with a hostile URL string (only when enabled)
-	CancelPct     int
-	PanicPct      int
-	BigBodyPct    int // oversize/endless bodies
-	InvalidChain  int // percent of runs with a chain defect
-	CRLRich       bool
-	DeltaPct      int
-	TimestampPct  int // percent of runs with purpose Timestamping
-	STPct         int // percent with a signing time
-	Schedules     int // number of alternative latency vectors (C12/C17)
-	MaxCallers    int
-	StaggerPct    int // concurrent callers start at different instants in this share of the multi-caller runs
-	RacePanic     bool
-	CachePct      int
-	LatMax        int   // upper bound of latencies in ms (0 = 3000)
-	StaleSigPct   int   // of wrongly signed CRLs: percent that reuse the signature value of an earlier genuine list of the same issuer
-	RepsPct       int   // single-world profiles: percent of runs in which 2..3 callers validate the same chain concurrently, with different signing times
-	KeyW          []int // weights of certificate key kinds (ec256, ec384, rsa2048, ec521, rsa3072); nil = default mix
-	SoakPct       int   // percent of runs that are sequential multi-validation histories over simulated time (shared cache)
-	SoakLong      bool  // thorough: longer histories
-	Perms         int   // forced completion-order permutations: n sampled, -1 = all m!
-	Hostile       bool  // C09: structure-aware deletions and odd shapes on top
-	TimeInvariant bool  // C17: no time-dependent behaviours so that only the schedule varies
+	Name            string
+	LenW            []int // weights for chain length 1..5 (index 0 = length 1)
+	OCSPCountW      []int // weights for 0..3 responders
+	CRLCountW       []int // weights for 0..3 points
+	EntryW          []int // ValidateContext / Validate / CheckStatus
+	FetcherW        []int // real / real+cache / stub
+	ConfigW         []int // fault-free / net only / byzantine only / everything
+	PSrcFault       int   // percent of sources that deviate inside a fault-injecting run
+	HostileURL      int   // percent of sources with a hostile URL string (only when enabled)
+	CancelPct       int
+	PanicPct        int
+	BigBodyPct      int // oversize/endless bodies
+	InvalidChain    int // percent of runs with a chain defect
+	CRLRich         bool
+	DeltaPct        int
+	TimestampPct    int // percent of runs with purpose Timestamping
+	STPct           int // percent with a signing time
+	Schedules       int // number of alternative latency vectors (C12/C17)
+	MaxCallers      int
+	SharedClientPct int // OCSP and CRL downloads go through ONE http.Client object in this share of the runs
+	StaggerPct      int // concurrent callers start at different instants in this share of the multi-caller runs
+	RacePanic       bool
+	CachePct        int
+	LatMax          int   // upper bound of latencies in ms (0 = 3000)
+	StaleSigPct     int   // of wrongly signed CRLs: percent that reuse the signature value of an earlier genuine list of the same issuer
+	RepsPct         int   // single-world profiles: percent of runs in which 2..3 callers validate the same chain concurrently, with different signing times
+	KeyW            []int // weights of certificate key kinds (ec256, ec384, rsa2048, ec521, rsa3072); nil = default mix
+	SoakPct         int   // percent of runs that are sequential multi-validation histories over simulated time (shared cache)
+	SoakLong        bool  // thorough: longer histories
+	Perms           int   // forced completion-order permutations: n sampled, -1 = all m!
+	Hostile         bool  // C09: structure-aware deletions and odd shapes on top
+	TimeInvariant   bool  // C17: no time-dependent behaviours so that only the schedule varies
 }
 
 func defaultRevProfile(name string) *RevProfile {
@@ -108,6 +109,7 @@ type RevScenario struct {
 	CacheLatency     time.Duration   // fake duration of every cache operation
 	WrapMiss         bool            // the cache reports misses as a wrapped ErrCacheMiss
 	PanicInSet       bool            // PanicAt == "cache": Set panics instead of Get
+	SharedClient     bool            // one *http.Client serves OCSP and CRL
 	CancelOnly       int             // 1 + position (order of the full scenario) of the only caller the cancellation applies to; 0 = all callers
 	StaggerMs        []int           // start offset of every concurrent caller, in the order of the full scenario (nil = together)
 	Sequential       bool            // soak: the worlds are successive validations of the same chain
@@ -383,6 +385,11 @@ func GenRevScenario(t *Tape, p *RevProfile) *RevScenario {
 	sc.WrapMiss = t.Bool(35)
 	sc.OCSPTimeout = []time.Duration{2 * time.Second, 0, 500 * time.Millisecond, 5 * time.Second}[t.Weighted(50, 15, 15, 20)]
 	sc.CRLTimeout = []time.Duration{5 * time.Second, 0, 500 * time.Millisecond, 2 * time.Second}[t.Weighted(50, 15, 15, 20)]
+	if p.SharedClientPct > 0 && t.Bool(p.SharedClientPct) {
+		// the caller hands one and the same client to the validator and to the fetcher
+		sc.SharedClient = true
+		sc.CRLTimeout = sc.OCSPTimeout
+	}
 	nWorlds := 1
 	if p.MaxCallers > 1 {
 		nWorlds = 1 + t.Weighted(40, 25, 15, 10, 10)*((p.MaxCallers-1)/4+1)
